@@ -120,6 +120,9 @@ func c09sched(c *core.Ctx) {
 					vsched.Failf("a later subscriber received %d retained wills, expected %d: %s", len(zr), wantRetained, Describe(zr))
 					return
 				}
+				if t.badStream() {
+					return
+				}
 				vsched.Logf("ok")
 			}})
 		}
@@ -183,6 +186,9 @@ func c09sched(c *core.Ctx) {
 				vsched.Failf("the successor (will: %v) was cut; wills published: %s", v.newWill != nil, Describe(ws))
 				return
 			}
+			if t.badStream() {
+				return
+			}
 			vsched.Logf("ok")
 		}})
 	}
@@ -211,6 +217,14 @@ func c09sched(c *core.Ctx) {
 			vsched.Failf("the two CONNECTs were answered by %s and %s", Describe(ga), Describe(gb))
 			return
 		}
+		// the second connection goes on working: it subscribes a filter of its own
+		b.Send(&refcodec.Packet{Type: refcodec.SUBSCRIBE, ID: 3, Topics: [][]byte{[]byte("data/b")}, QoSs: []byte{1}})
+		t.w.Settle()
+		if gb := b.Take(); !hasType(gb, refcodec.SUBACK) {
+			vsched.Failf("the SUBSCRIBE of the second connection was answered by %s", Describe(gb))
+			return
+		}
+		w.rc.Take()
 		a.Cut()
 		t.w.Settle()
 		got := w.rc.Take()
@@ -223,6 +237,9 @@ func c09sched(c *core.Ctx) {
 		got = w.rc.Take()
 		if wa, wb := publishesOn(got, "w/a"), publishesOn(got, "w/b"); len(wb) != 1 || string(wb[0].Payload) != "will of B" || len(wa) != 0 {
 			vsched.Failf("connection B (will \"will of B\" on w/b) was cut; wills published: %s", Describe(got))
+			return
+		}
+		if t.badStream() {
 			return
 		}
 		vsched.Logf("ok")
